@@ -26,7 +26,7 @@ ADq == {0, 1, 2, 3, 4, 5, 8, 17}
 ADt == (0..9) \cup {15, 16, 17, 31, 32, 33, 63, 64, 65}
 MLq == (0..20) \cup {31, 32, 33, 63, 64, 65}
 MLt == (0..40) \cup {63, 64, 65, 127, 128, 129, 255, 256, 257}
-MLbig == {1021, 1024, 1027, 4093, 4096, 4099}
+MLbig == {1021, 1024, 1027, 4093, 4096, 4099, 65537}
 
 AD == IF Thorough THEN ADt ELSE ADq
 ML == IF Thorough THEN MLt ELSE MLq
